@@ -58,7 +58,8 @@ def detect_metric_variant():
     if sl == 'self.elements.types == k':
         return 'scatter', lib.sha(region)
     if sl in ('self.elements.id2index.loc[e.ids].values[:, 0]',
-              'self.elements.id2index.loc[e.ids].values.ravel()'):
+              'self.elements.id2index.loc[e.ids].values.ravel()',
+              'self.collect_element_indices_by_ids(e.ids)'):
         return 'by_id', lib.sha(region)
     raise ValueError(f'unrecognised index expression metrics[{sl}]')
 
@@ -85,6 +86,18 @@ def respace(mesh, rng):
         r[1], r[2], r[3] = g(0, r[1]), g(1, r[2]), g(2, r[3])
 
 
+SCALES = [2.0 ** -14, 2.0 ** -30, 1e-4, 1e-2, 2.0 ** 10, 1e3]
+WEIGHT_SCALES = [2.0 ** -14, 2.0 ** -40, 1e-4, 1e-12, 2.0 ** 30, 1e6]
+
+
+def rescale(mesh, s):
+    """multiply every coordinate by the float s (one rounding when s is not a
+    power of two); the exact value of each resulting float is what the model
+    and the oracle use"""
+    for r in mesh['nodes']:
+        r[1], r[2], r[3] = float(r[1]) * s, float(r[2]) * s, float(r[3]) * s
+
+
 def det3(a, b, c):
     return (a[0] * (b[1] * c[2] - b[2] * c[1]) - a[1] * (b[0] * c[2] - b[2] * c[0])
             + a[2] * (b[0] * c[1] - b[1] * c[0]))
@@ -95,7 +108,7 @@ def sub(a, b):
 
 
 def tetvol(p):
-    return F(det3(sub(p[1], p[0]), sub(p[2], p[0]), sub(p[3], p[0])), 6)
+    return F(det3(sub(p[1], p[0]), sub(p[2], p[0]), sub(p[3], p[0]))) / 6
 
 
 def metric_of(t, pts):
@@ -104,7 +117,7 @@ def metric_of(t, pts):
         a, b = sub(pts[1], pts[0]), sub(pts[2], pts[0])
         cr = (a[1] * b[2] - a[2] * b[1], a[2] * b[0] - a[0] * b[2], a[0] * b[1] - a[1] * b[0])
         assert cr[0] == 0 and cr[1] == 0
-        return F(abs(cr[2]), 2)
+        return abs(F(cr[2])) / 2
     if t == 'quad':
         return metric_of('tri', [pts[0], pts[1], pts[2]]) + metric_of('tri', [pts[0], pts[2], pts[3]])
     if t in ('tet', 'tet2'):
@@ -118,7 +131,7 @@ def metric_of(t, pts):
 
 
 def metrics_by_id(mesh):
-    xyz = {r[0]: tuple(r[1:4]) for r in mesh['nodes']}
+    xyz = {r[0]: tuple(F(v) for v in r[1:4]) for r in mesh['nodes']}
     out = {}
     for t, rows in mesh['blocks']:
         for e, c in rows:
@@ -147,14 +160,14 @@ def impl_rows(r):
 
 def tol_of(q):
     if q['kind'] == 'n2e':
-        mx = max([abs(x) for row in q['data'] for x in row] + [0])
+        mx = max([abs(F(x)) for row in q['data'] for x in row] + [F(0)])
     else:
-        mx = max([abs(x) for row in q['values'].values() for x in row] + [0])
+        mx = max([abs(F(x)) for row in q['values'].values() for x in row] + [F(0)])
     # implicit weights come from femio's area/volume kernels, some of which
     # accumulate in float32 (prism/hex centroid kernels): 2^-20 there
     bits = 20 if (q['kind'] == 'e2n' and q['mode'] == 'mean' and q['weight'] == 'implicit') \
         else TOL_BITS
-    return F(1 + mx, 2 ** bits)
+    return (1 + mx) / 2 ** bits
 
 
 # ------------------------------------------------------- property (oracle)
@@ -238,7 +251,7 @@ def oracle(mesh, q, r):
                     a, b = q['affine']
                     xyz = {x[0]: x[1:4] for x in mesh['nodes']}
                     cen = [sum(F(xyz[n][k]) for n in conn[e]) / len(conn[e]) for k in range(3)]
-                    if c == 0 and abs(got[j][0] - (sum(a[k] * cen[k] for k in range(3)) + b)) > tol:
+                    if c == 0 and abs(got[j][0] - (sum(a[k] * cen[k] for k in range(3)) + b)) > 2 * tol:
                         return f'affine field not reproduced at the centroid of position {j}'
         return None
     if q['mode'] == 'effective':
@@ -375,8 +388,11 @@ def queries_for(rng, mesh):
     qs.append({'kind': 'n2e', 'data': [[rng.randint(-9, 9) for _ in range(w)] for _ in nodes]})
     a = [rng.randint(-3, 3) for _ in range(3)]
     b = rng.randint(-5, 5)
+    # the affine field is evaluated exactly and rounded once to a float; the
+    # model and the oracle see the exact value of that float
     qs.append({'kind': 'n2e', 'affine': [a, b],
-               'data': [[sum(a[k] * r[1 + k] for k in range(3)) + b, 7] for r in nodes]})
+               'data': [[float(sum(a[k] * F(r[1 + k]) for k in range(3)) + b), 7.0]
+                        for r in nodes]})
 
     def values(const_col):
         w = rng.choice([1, 2, 3])
@@ -388,7 +404,8 @@ def queries_for(rng, mesh):
         qs.append({'kind': 'e2n', 'mode': 'mean', 'weight': 'false', 'order1': o,
                    'values': values(rng.random() < 0.5)})
         qs.append({'kind': 'e2n', 'mode': 'mean', 'weight': 'explicit', 'order1': o,
-                   'weights': {str(e): rng.randint(1, 9) for e in eids},
+                   'weights': (lambda ws: {str(e): float(rng.randint(1, 9)) * ws for e in eids})(
+                       rng.choice([1.0, 1.0] + WEIGHT_SCALES)),
                    'values': values(rng.random() < 0.5)})
         qs.append({'kind': 'e2n', 'mode': 'mean', 'weight': 'implicit', 'order1': o,
                    'values': values(rng.random() < 0.5)})
@@ -422,6 +439,12 @@ def gen_cases(ctx):
         if ctx.rng.random() < 0.8:
             respace(mesh, ctx.rng)
             mesh['tags']['respaced'] = True
+        # the clauses of the property are scale-invariant: same mesh in other
+        # length units (tiny and huge), exact powers of two and powers of ten
+        sc = ctx.rng.choice([1.0, 1.0, 1.0] + SCALES)
+        if sc != 1.0:
+            rescale(mesh, sc)
+        mesh['tags']['scale'] = sc
         cases.append({'id': len(cases), 'mesh': mesh, 'queries': queries_for(ctx.rng, mesh)})
     for i in range(3 if ctx.tier == 'quick' else 12):
         mesh = gen.gen_mesh(ctx.rng, kind=ctx.rng.choice(['tri', 'tet', 'hex']), n_unref=0)
@@ -654,11 +677,15 @@ def main(ctx):
         ctx.count('ids:' + str(tg.get('ids')))
         ctx.count('n_types:' + str(len(c['mesh']['blocks'])))
         ctx.count('blocks_id_sorted:' + str(blocks_sorted(c['mesh'])))
+        ctx.count('length_scale:%g' % tg.get('scale', 1.0))
         if tg.get('malformed'):
             ctx.count('malformed:' + tg['malformed'])
         for q, r in zip(c['queries'], results[c['id']]):
             nq += 1
             ctx.count('query:' + q['kind'] + (':' + q['mode'] + ':' + q['weight'] if q['kind'] == 'e2n' else ''))
+            if q.get('weights'):
+                ctx.count('explicit_weight_magnitude:1e%d' % round(
+                    __import__('math').log10(max(q['weights'].values()))))
             ctx.count('impl:' + ('raised ' + r['exc'] if 'exc' in r else 'array'))
             ctx.case([describe(c['mesh']), q], nontrivial='rows' in r,
                      sample={'mesh': describe(c['mesh']), 'query': q, 'impl': summarise(r)}
